@@ -37,12 +37,19 @@ type attesterWorld struct {
 	accts *fixedAccounts
 	spe   uint64
 	nVals uint64
+	f     faults
 	hist  *history
 }
 
-type attData struct{ spe uint64 }
+type attData struct {
+	spe uint64
+	f   faults
+}
 
-func (d attData) AttestationData(_ context.Context, opts *api.AttestationDataOpts) (*api.Response[*phase0.AttestationData], error) {
+func (d attData) AttestationData(ctx context.Context, opts *api.AttestationDataOpts) (*api.Response[*phase0.AttestationData], error) {
+	if d.f.hit("attdata-err", callOf(ctx)<<20^uint64(opts.Slot)) {
+		return nil, strErr("scripted attestation data failure")
+	}
 	epoch := uint64(opts.Slot) / d.spe
 	var source uint64
 	if epoch > 0 {
@@ -57,22 +64,34 @@ func (d attData) AttestationData(_ context.Context, opts *api.AttestationDataOpt
 	}, Metadata: map[string]any{}}, nil
 }
 
-type attSigner struct{}
+type attSigner struct{ f faults }
 
-func (attSigner) SignBeaconAttestations(_ context.Context, accounts []e2wtypes.Account, _ phase0.Slot, _ []phase0.CommitteeIndex,
+func (d attSigner) SignBeaconAttestations(ctx context.Context, accounts []e2wtypes.Account, slot phase0.Slot, _ []phase0.CommitteeIndex,
 	_ phase0.Root, _ phase0.Epoch, _ phase0.Root, _ phase0.Epoch, _ phase0.Root,
 ) ([]phase0.BLSSignature, error) {
+	key := callOf(ctx)<<20 ^ uint64(slot)
+	if d.f.hit("attsign-err", key) {
+		return nil, strErr("scripted signer failure")
+	}
 	sigs := make([]phase0.BLSSignature, len(accounts))
 	for i, a := range accounts {
+		if d.f.hit("attsign-zero", key<<5^a.(*fakeAccount).index) {
+			continue
+		}
 		sigs[i][0] = 0x51
 		sigs[i][1] = byte(a.(*fakeAccount).index + 1)
 	}
 	return sigs, nil
 }
 
-type attSubmitter struct{}
+type attSubmitter struct{ f faults }
 
-func (attSubmitter) SubmitAttestations(context.Context, []*phase0.Attestation) error { return nil }
+func (d attSubmitter) SubmitAttestations(ctx context.Context, atts []*phase0.Attestation) error {
+	if len(atts) > 0 && d.f.hit("attsubmit-err", callOf(ctx)<<20^uint64(atts[0].Data.Slot)) {
+		return strErr("scripted submission failure")
+	}
+	return nil
+}
 
 func buildAttester(sc *Scenario) (world, error) {
 	w := &attesterWorld{sc: sc, spe: sc.P["spe"], nVals: sc.P["vals"], hist: newHistory(len(sc.Roles))}
@@ -80,17 +99,19 @@ func buildAttester(sc *Scenario) (world, error) {
 		return nil, fmt.Errorf("bad parameters")
 	}
 	w.clock = newClock(w.spe, sc.P["epoch"]*w.spe)
+	w.f = newFaults(sc.P)
 	w.accts = newFixedAccounts(int(w.nVals))
+	w.accts.f = w.f
 	svc, err := standardattester.New(context.Background(),
 		standardattester.WithLogLevel(zerolog.Disabled),
 		standardattester.WithProcessConcurrency(2),
 		standardattester.WithMonitor(nullmetrics.New()),
 		standardattester.WithChainTime(w.clock),
 		standardattester.WithSpecProvider(newSpec(w.spe)),
-		standardattester.WithAttestationDataProvider(attData{w.spe}),
-		standardattester.WithAttestationsSubmitter(attSubmitter{}),
+		standardattester.WithAttestationDataProvider(attData{w.spe, w.f}),
+		standardattester.WithAttestationsSubmitter(attSubmitter{w.f}),
 		standardattester.WithValidatingAccountsProvider(w.accts),
-		standardattester.WithBeaconAttestationsSigner(attSigner{}),
+		standardattester.WithBeaconAttestationsSigner(attSigner{w.f}),
 	)
 	if err != nil {
 		return nil, err
@@ -107,13 +128,17 @@ type attIn struct {
 	epoch uint64
 	val   uint64
 	slot  uint64
+	// faults: the scenario scripts failures of the data provider, signer,
+	// submitter or accounts provider, so a call may come back without an
+	// attestation for a validator it was the first to claim.
+	faults bool
 }
 
 // run: op.A = slot offset inside the two epochs of the repetition, op.B = bit
 // mask of the validators of the duty.  Validator v sits in committee v%3 at
 // position v/3 (distinct per validator, so that the validator of a returned
 // attestation can be told from its committee index and aggregation bit).
-func (w *attesterWorld) run(rep int, ri int, _ *Role, op *Op) {
+func (w *attesterWorld) run(rep int, ri int, _ *Role, op *Op, callID uint64) {
 	slot := (w.sc.P["epoch"]+2*uint64(rep))*w.spe + op.A%(2*w.spe)
 	var vals []phase0.ValidatorIndex
 	var committees []phase0.CommitteeIndex
@@ -136,7 +161,7 @@ func (w *attesterWorld) run(rep int, ri int, _ *Role, op *Op) {
 		panic("harness: " + err.Error())
 	}
 	call := stamp()
-	atts, _ := w.svc.Attest(context.Background(), duty)
+	atts, _ := w.svc.Attest(withCall(context.Background(), callID), duty)
 	ret := stamp()
 	attested := map[uint64]bool{}
 	for _, a := range atts {
@@ -147,7 +172,7 @@ func (w *attesterWorld) run(rep int, ri int, _ *Role, op *Op) {
 		}
 	}
 	for _, v := range vals {
-		w.hist.add(ri, attIn{epoch: slot / w.spe, val: uint64(v), slot: slot}, attested[uint64(v)], call, ret)
+		w.hist.add(ri, attIn{epoch: slot / w.spe, val: uint64(v), slot: slot, faults: w.f.rate > 0}, attested[uint64(v)], call, ret)
 	}
 }
 
@@ -167,8 +192,14 @@ func (w *attesterWorld) judge(t ev.TB, sc *Scenario) {
 	}
 	model := porcupine.Model{
 		Init: func() any { return false },
-		Step: func(state, _ any, output any) (bool, any) {
-			return output.(bool) == !state.(bool), true
+		Step: func(state, input any, output any) (bool, any) {
+			if state.(bool) {
+				return !output.(bool), true // never a second attestation
+			}
+			if input.(attIn).faults {
+				return true, true // claimed; whether it was attested depends on the scripted fault
+			}
+			return output.(bool), true
 		},
 		DescribeOperation: func(input, output any) string {
 			in := input.(attIn)
@@ -199,11 +230,13 @@ func init() {
 				}},
 		},
 		params: func(t *rapid.T) map[string]uint64 {
-			return map[string]uint64{
+			p := map[string]uint64{
 				"spe":   rapid.SampledFrom([]uint64{4, 8}).Draw(t, "spe"),
 				"vals":  rapid.Uint64Range(1, 6).Draw(t, "vals"),
 				"epoch": rapid.SampledFrom([]uint64{0, 1, 2, 10}).Draw(t, "epoch"),
 			}
+			genFaults(t, p)
+			return p
 		},
 		build: buildAttester,
 	})
